@@ -29,9 +29,7 @@ def build_debug_harness():
     """second harness binary with the interpreter's own instruction trace compiled in (tags verif,gojq_debug):
     gives an instruction-fetch counter that is independent of ctx.Done()"""
     h = os.path.join(V.ROOT, "harness")
-    exe = os.path.join(V.BUILD, "harness-c07dbg")
-    rc, out = V.sh(["go", "build", "-tags", "verif gojq_debug", "-o", exe, "./c07"], cwd=h, env=V.go_env(), timeout=1200)
-    return (exe if rc == 0 else None), out
+    return V.build_harness("c07", tags="verif gojq_debug", out="harness-c07dbg")
 
 
 def split_both(o):
